@@ -2767,6 +2767,42 @@ public:
                           << " -- " << *this << "\n";);
   }
 
+private:
+  // val is written to some cells of the segment [lb_idx, ub_idx] that
+  // cannot be enumerated: weak update if the array is smashed,
+  // otherwise all the cells that may overlap with the segment are
+  // killed.
+  void array_store_unknown_cells(const variable_t &a,
+                                 const linear_expression_t &elem_size,
+                                 uint64_t e_sz,
+                                 const linear_expression_t &lb_idx,
+                                 const linear_expression_t &ub_idx,
+                                 const linear_expression_t &val) {
+    const array_state &as = lookup_array_state(a);
+    if (as.is_smashed()) {
+      constant_value cp_e_sz((int64_t)e_sz);
+      cp_e_sz |= as.get_element_sz();
+      if (!cp_e_sz.is_top()) {
+        m_base_dom.array_store_range(a, elem_size, lb_idx, ub_idx, val);
+      } else {
+        m_base_dom -= a;
+      }
+    } else {
+      array_state next_as(as);
+      offset_map_t &offset_map = next_as.get_offset_map();
+      linear_expression_t symb_lb(lb_idx);
+      linear_expression_t symb_ub(ub_idx + number_t(e_sz - 1));
+      std::vector<cell_t> cells;
+      offset_map.get_overlap_cells_symbolic_offset(m_base_dom, symb_lb,
+                                                   symb_ub, cells);
+      kill_cells(a, cells, offset_map);
+      // the written cells might not be cells of the offset map
+      next_as.set_all_cells_known(false);
+      m_array_map.set(a, next_as);
+    }
+  }
+
+public:
   // Perform array stores over an array segment [lb_idx, ub_idx]
   virtual void array_store_range(const variable_t &a,
                                  const linear_expression_t &elem_size,
@@ -2782,17 +2818,14 @@ public:
     uint64_t e_sz = check_and_get_elem_size(elem_size);
     interval_t lb_i = to_interval(lb_idx);
     auto lb = lb_i.singleton();
-    if (!lb) {
-      CRAB_WARN("array adaptive store range ignored because ", "lower bound",
-                lb_idx, " is not constant");
-      return;
-    }
-
     interval_t ub_i = to_interval(ub_idx);
     auto ub = ub_i.singleton();
-    if (!ub) {
-      CRAB_WARN("array adaptive store range ignored because ", "upper bound ",
-                ub_idx, " is not constant");
+    if (!lb || !ub) {
+      // The store cannot be ignored: the old contents of the segment
+      // are overwritten.
+      CRAB_WARN("array adaptive store range [", lb_idx, ",", ub_idx,
+                "] with non-constant bounds: contents of the segment lost");
+      array_store_unknown_cells(a, elem_size, e_sz, lb_idx, ub_idx, val);
       return;
     }
 
